@@ -260,6 +260,41 @@ def timeout_twins(rep: Report, tier: str = "quick") -> int:
                                                  "operation hangs (real time) on the marked attempts"})
     return runs
 
+
+def nested_contexts(rep: Report, configs, behs, tier: str) -> int:
+    """Re-entrancy: the operation of run A makes a whole run B through the same object (for the
+    context managers: the same context object) before producing its own outcome.  Every entry point
+    must perform the same work as Retry.call for both runs."""
+    rng = random.Random(seed() + 121)
+    by_cfg: dict = {}
+    for b in behs:
+        if sum(1 for e in b["h"] if e["e"] == "deliver") == 1:
+            by_cfg.setdefault(b["c"], []).append(b)
+    pool = [(c, bs) for c, bs in sorted(by_cfg.items()) if len(bs) >= 2]
+    runs = 0
+    for _ in range(60 if tier == "quick" else 1500):
+        c, bs = pool[rng.randrange(len(pool))]
+        a, b2 = rng.sample(bs, 2)
+        cfg = dict(configs[c - 1], budget=-1)        # each run has its own clock: no shared budget
+        k = rng.choice([1, 2])
+        ref = retryenv.run_nested(cfg, a["h"], b2["h"], nest_at=k, entry="Retry", force_mode="call")
+        for entry in ("Retry.context", "Policy.context", "RetryPolicy.context", "Policy", "RetryPolicy"):
+            got = retryenv.run_nested(cfg, a["h"], b2["h"], nest_at=k, entry=entry, force_mode="call")
+            runs += 1
+            for which, (x, y) in enumerate(zip(ref, got)):
+                if (x is None) != (y is None) or (x is not None and normalise(x) != normalise(y)):
+                    rep.add_violation("C12:entry-points-disagree-on-events",
+                                      f"C12/Retry.call-vs-{entry}.call/nested-runs/events", {
+                                          "entry_a": ["Retry", "call"], "entry_b": [entry, "call"],
+                                          "cfg": full_cfg(cfg), "script_outer": a["h"], "script_inner": b2["h"],
+                                          "inner_run_made_by_outer_invocation": k,
+                                          "which_run_differs": "outer" if which == 0 else "inner",
+                                          "trace_a": x, "trace_b": y,
+                                          "how": "harness.retryenv.run_nested(cfg, outer, inner, nest_at=k, "
+                                                 "entry=<entry>, force_mode='call')"})
+                    break
+    return runs
+
 def check_c12(tier: str) -> Report:
     rep = Report(prop="C12", tier=tier, level="model_checking")
     mc = run_tlc("RetryMC.tla", "RetryMC_C12.cfg", tag="C12-mc", timeout=3000)
@@ -304,6 +339,7 @@ def check_c12(tier: str) -> Report:
             "how": "harness.retryenv.run_scenario(cfg, script, entry=<entry>, place='ctor', "
                    "force_mode=<style>, site_fault=<raising_callback>) for both entries"})
     n_timeout_runs = timeout_twins(rep, tier)
+    n_nested = nested_contexts(rep, configs, behs, tier)
     # call() vs execute(): the two deliveries of the same scenario must be related (TLC)
     pairs = [p for p in tot["pairs"] if p["fault"] is None]
     pv = tlc_validate("PairCheck", pairs, "C12-pairs", keys=("call", "exec"))
@@ -322,7 +358,7 @@ def check_c12(tier: str) -> Report:
     rep.coverage.update({
         "states": mc.distinct, "transitions": mc.generated, "behaviours_exported": len(behs),
         "scenarios_incl_raising_callbacks": tot["scen"], "entry_point_executions": tot["runs"],
-        "runs_with_firing_attempt_timeouts": n_timeout_runs,
+        "runs_with_firing_attempt_timeouts": n_timeout_runs, "nested_run_comparisons": n_nested,
         "traces_validated_against_impl": tot["runs"],
         "entry_points": list(retryenv.ENTRY_POINTS), "call_execute_pairs_checked_by_tlc": len(pairs),
         "scenarios_differing_from_M": tot["drift"], "exhaustive": True,
